@@ -31,8 +31,12 @@ where
         let n = x.nrows();
         let mut classes = Vec::with_capacity(nclasses);
         let mut likelihood = Array2::zeros((nclasses, n));
-        joint_log_likelihood
-            .iter()
+        // visit the classes in a fixed order: the iteration order of the hash map changes from
+        // call to call and would otherwise decide which class wins an exact tie
+        let mut entries = joint_log_likelihood.iter().collect::<Vec<_>>();
+        entries.sort_by(|a, b| a.0.cmp(b.0));
+        entries
+            .into_iter()
             .enumerate()
             .for_each(|(i, (&key, value))| {
                 classes.push(key.clone());
